@@ -206,7 +206,12 @@ def histories(draw):
                           "once": draw(st.booleans())}]
     ops = []
     for _ in range(draw(st.integers(3, 14))):
-        k = draw(st.sampled_from(["generic", "generic", "read", "read", "write", "write", "upload", "reopen"]))
+        k = draw(st.sampled_from(["generic", "generic", "read", "read", "write", "write", "upload", "reopen", "again", "again"]))
+        if k == "again":
+            # polling: the very same call once more (same tag list, same values), whatever the driver kept from the first time
+            if ops:
+                ops.append(dict(ops[-1]))
+            continue
         if k == "generic":
             ops.append({"op": k, "attr": draw(st.integers(1, 7))})
         elif k == "read":
